@@ -12,6 +12,7 @@
 //            HIST <pid> <thread> <ins|get> <val> <res>   (with "hist": every returned call, in return order)
 //            DONE <paths> <steps> <mismatching paths>
 //
+//  lfcache_replay probe               yield points passed by one thread in insert(); get()  (hooks compiled in?)
 //  lfcache_replay random <N> <NT> <OPS> <seed> <executions> <spurious-percent>
 //                                      binding B: seeded random schedules of the real code, one ndjson event
 //                                      per scheduler step on stdout (validated by spec/LFCacheTrace.tla)
@@ -225,6 +226,21 @@ int main(int argc, char** argv) {
       case 3: return main_random<3>(nt, ops, seed, nexec, sp);
       default: return main_random<4>(nt, ops, seed, nexec, sp);
     }
+  }
+  if (mode == "probe") {   // which yield points does one thread pass in insert(1); get() ?  (are the hooks compiled in?)
+    Runner<2>* R = new Runner<2>(1);
+    R->S.reset(1);
+    for (int call = 0; call < 2; call++) {
+      printf("PROBE %s", call == 0 ? "ins" : "get");
+      for (int i = 0; i < 40; i++) {
+        R->S.step(0, call == 0 ? INS : GET, 5, false);
+        int pc = R->S.th[0].pc;
+        printf(" %s", pc >= 0 ? pc_name[pc] : "?");
+        if (pc == IDLE) break;
+      }
+      printf(" res=%d\n", R->S.th[0].res);
+    }
+    return 0;
   }
   if (mode == "lockfree") {   // sanity: the head must be a lock-free atomic, otherwise "atomic operation" is not one step
     std::atomic<HeadPOD> h;
